@@ -1,0 +1,24 @@
+// SPDX-FileCopyrightText: 2023 The Pion community <https://pion.ly>
+// SPDX-License-Identifier: MIT
+
+//go:build verif
+
+package udp
+
+// Machine-checked contracts for /verif (govc).  Comment-only.
+
+//@ arith int
+
+// C10: connections of the listener read through their packetio.Buffer and inherit its deadline behaviour.
+//@ func (c *Conn) Read(p []byte) (n int, err error)
+//@   requires c.buffer != nil && c.buffer.readDeadline != nil
+//@   modifies p[*], rdExpired, rdLast
+//@   ensures [deadline.persist] rdExpired ==> n == 0 && typeis(err, *packetio.netError)
+//@   ensures [deadline.nospurious] typeis(err, *packetio.netError) ==> n == 0 && closed(rdLast)
+
+//@ func (c *Conn) SetReadDeadline(t time.Time) (err error)
+//@   requires c.buffer != nil && c.buffer.readDeadline != nil
+//@   modifies lastUntil
+//@   ensures [nil] err == nil
+
+//@ property C10: Conn.Read, Conn.SetReadDeadline
